@@ -12,6 +12,7 @@ pub fn run(ctx: &Ctx) -> i32 {
             "iomodel-pair" => replay_one(ctx, &PairEngine, &rf),
             "iomodel-tlspair" => replay_one(ctx, &TlsPairEngine, &rf),
             "sniff" => replay_one(ctx, &crate::engines::sniff::SniffRewindEngine, &rf),
+            "tcpreset" => replay_one(ctx, &TcpResetEngine, &rf),
             other => Err(format!("unknown engine {other}")),
         }) {
             Ok(c) => c,
@@ -29,6 +30,8 @@ pub fn run(ctx: &Ctx) -> i32 {
     total.merge(run_generated(ctx, &crate::engines::sniff::SniffRewindEngine, "sniffing-rewind", crate::engines::sniff::strategy, ctx.cases(20_000, 600_000), 300));
     let sock_ctx = Ctx { threads: 8, ..ctx.clone() };
     total.merge(run_generated(&sock_ctx, &PairEngine, "tcp-unix-pairs", || pair_strategy(2..4), ctx.cases(1_500, 60_000), 300));
+    // a connection aborted by the peer (RST) is an error for the reader, never an orderly end of the stream
+    total.merge(run_generated(&sock_ctx, &TcpResetEngine, "tcp-abort", reset_strategy, ctx.cases(300, 10_000), 50));
     if ctx.tier == Tier::Thorough && std::env::var_os("VERIF_NO_FUZZ").is_none() {
         // coverage-guided leg: byte input decoded into an adapter program and inner scripts
         let seeds: Vec<Vec<u8>> = vec![
